@@ -259,7 +259,7 @@ def rule_decimal_and_text(ctx):
     from ..world import World
 
     model = ctx.model
-    ctx.res.minimum("O19.7", 2)
+    ctx.res.minimum("O19.7", 3)
 
     def decimal_range_stub(scale, precision):
         @stub
@@ -280,6 +280,32 @@ def rule_decimal_and_text(ctx):
 
     decide(ctx, "O19.7", "Decimal column digits come from the rule", "cutplace.fields.DecimalFieldFormat.sql_ansi_type", cell, min_cells=3)
 
+    def decimal_column_cell(ch):
+        # cutplace names the total number of digits "scale" and the digits after the point "precision"; in every
+        # dialect the column reads TYPE(total, after the point)
+        dialect_name = ch.choose("dialect", list(DIALECTS))
+        total, after_point = ch.choose("digits", [(7, 2), (12, 0), (31, 12)])
+        interp = Interp(model, ch)
+        fields = [_field(model, "amount", False, ("decimal", total, after_point))]
+        cid = Obj(model.cls("cutplace.interface.Cid"), {"_field_formats": fields, "_field_names": ["amount"]}, label="cid")
+        dialect = _dialect(interp, model, dialect_name)
+        factory = interp.instantiate(ClassRef(model.cls(FACTORY)), [cid, "t", dialect], {})
+        key = "%s decimal(%d, %d)" % (dialect_name, total, after_point)
+        try:
+            statement = interp.call_function(model.func(FACTORY + ".create_table_statement"), [factory], {}, None)
+        except AbsRaise as raised:
+            return (key, "raise " + exc_name(raised.value), "TYPE(%d, %d)" % (total, after_point))
+        if not isinstance(statement, str):
+            return (key, "statement is not a concrete text: %r" % (statement,), "TYPE(%d, %d)" % (total, after_point))
+        import re as _re
+
+        found = _re.search(r"amount\s+(\w+)\s*\(\s*(\d+)\s*,\s*(\d+)\s*\)", statement)
+        actual = "TYPE(%s, %s)" % (found.group(2), found.group(3)) if found else statement.strip()
+        return (key, actual, "TYPE(%d, %d)" % (total, after_point))
+
+    decide(ctx, "O19.7", "decimal columns read TYPE(total digits, digits after the point) in every dialect",
+           FACTORY + ".create_table_statement", decimal_column_cell, min_cells=12)
+
     def text_cell(ch):
         field_type = ch.choose("type", ["Text", "Choice", "Pattern", "RegEx", "Constant"])
         upper = ch.choose("upper length limit", [None, 1, 60])
@@ -292,4 +318,15 @@ def rule_decimal_and_text(ctx):
     decide(ctx, "O19.7", "text column length is the upper length limit", "cutplace.fields.AbstractFieldFormat.sql_ansi_type", text_cell, min_cells=15)
 
 
-RULES = [rule_keyword_sets, rule_columns, rule_integer_types, rule_decimal_and_text]
+def rule_limits_of_ranges(ctx):
+    """O1.5 (shared with C01): the type of an Integer column and the default varchar length are computed from
+    Range.lower_limit / upper_limit, which must be the smallest / largest limit over ALL items of the range."""
+    from .c01 import RANGE, constructor_table
+
+    ctx.res.minimum("O1.5", 1)
+    constructor_table(ctx, "O1.5", RANGE, 5)
+
+
+from .common import rule_module_state  # noqa: E402
+
+RULES = [rule_keyword_sets, rule_columns, rule_integer_types, rule_decimal_and_text, rule_limits_of_ranges, rule_module_state]
